@@ -363,6 +363,15 @@ func (c *ShadowStreamConn) writeToShadowStreamConn(w *ShadowStreamConn) (n int64
 	writeBuf := w.writeBuf
 	readBuf := writeBuf[2+tagSize : 2+tagSize]
 
+	// Hand over what an earlier Read left in the read buffer.
+	if left := c.readBuf[c.readStart:]; len(left) > 0 {
+		if err := w.write(writeBuf, left); err != nil {
+			return 0, err
+		}
+		c.readStart = len(c.readBuf)
+		n = int64(len(left))
+	}
+
 	for {
 		nr, err := c.read(readBuf)
 		if err != nil {
@@ -412,6 +421,16 @@ func (c *ShadowStreamConn) Read(b []byte) (n int, err error) {
 
 // WriteTo implements [io.WriterTo].
 func (c *ShadowStreamConn) WriteTo(w io.Writer) (n int64, err error) {
+	// Hand over what an earlier Read left in the read buffer.
+	if left := c.readBuf[c.readStart:]; len(left) > 0 {
+		nw, err := w.Write(left)
+		c.readStart += nw
+		n = int64(nw)
+		if err != nil {
+			return n, err
+		}
+	}
+
 	b := c.getReadBuf()
 
 	for {
